@@ -305,6 +305,36 @@ func mirrorExec(c *Ctx, op string) {
 			c.PropFail("mirror-not-identical", "the bytes at the target are not a prefix of the source ware", op)
 		}
 	}
+	// ---- cancellation at every poll of the walk (and just after it): the answer and the target agree — a mirror that
+	// reports failure leaves the target without W, one that reports success leaves W there
+	if firstHolder == "good" && !tgtFull && !tgtBlocked && !otherAtAddr {
+		for k := 1; k <= len(fsx)+8; k++ {
+			t3 := filepath.Join(base, fmt.Sprintf("tgt-c%d", k))
+			os.MkdirAll(t3, 0755)
+			cc := &countdownCtx{Context: context.Background(), left: k, done: make(chan struct{})}
+			_, errc, panc := safeCall(func() (api.WareID, error) {
+				return fn.mirror(cc, id, whAddr(tgtKind, t3), sources, rio.Monitor{})
+			})
+			_, fe := os.Lstat(storedWarePath(tgtKind, t3, id))
+			switch {
+			case panc != "":
+				c.PropFail("mirror-failed", "cancelled mirror panicked: "+panc, op)
+			case errc != nil && fe == nil:
+				c.PropFail("mirror-target-polluted", fmt.Sprintf("a mirror cancelled at poll %d reported %s but left W committed at the target's final address", k, catOf(errc)), op)
+			case errc == nil && fe != nil:
+				c.PropFail("mirror-not-served", fmt.Sprintf("a mirror cancelled at poll %d reported success but the target does not hold W", k), op)
+			}
+			if ents, e := os.ReadDir(t3); e == nil {
+				for _, d := range ents {
+					if strings.HasPrefix(d.Name(), ".tmp.upload") {
+						c.PropFail("mirror-staging-left", "a cancelled mirror left its staging file: "+d.Name(), op)
+					}
+				}
+			}
+			os.RemoveAll(t3)
+		}
+		c.H("mirror-cancel-sweep")
+	}
 	if ents, e := os.ReadDir(tmpDir); e == nil && len(ents) > 0 {
 		c.PropFail("scan-creates-files", fmt.Sprintf("mirror / unpack of a %s ware left %d file(s) in $TMPDIR, e.g. %s", fmtName, len(ents), ents[0].Name()), op)
 	}
